@@ -375,17 +375,20 @@ where
             let run_futs = policy
                 .other_parties()
                 .map(async |p| client.run(p, run_request.clone()).await);
-            if let Err(err) = future::try_join_all(run_futs).await
-                && let Some(url) = policy.output
-            {
-                let _ = client
-                    .output(
-                        url.clone(),
-                        Err(OutputError::RequestRunError {
-                            source: Box::new(err),
-                        }),
-                    )
-                    .await;
+            if let Err(err) = future::try_join_all(run_futs).await {
+                if let Some(url) = policy.output {
+                    let _ = client
+                        .output(
+                            url.clone(),
+                            Err(OutputError::RequestRunError {
+                                source: Box::new(err),
+                            }),
+                        )
+                        .await;
+                } else {
+                    error!(%err, "error when requesting run from followers");
+                }
+                // end the policy (and return the permit) whether or not there is an output URL
                 return ControlFlow::Break(());
             }
             debug!("followers are running");
@@ -689,17 +692,23 @@ where
                                 };
                                 client.consts(p, const_req).await
                             });
-                            if let Err(err) = future::try_join_all(const_futs).await
-                                && let Some(url) = policy_cl.output
-                            {
-                                let _ = client
-                                    .output(
-                                        url,
-                                        Err(OutputError::SendConstsError {
-                                            source: Box::new(err),
-                                        }),
-                                    )
-                                    .await;
+                            if let Err(err) = future::try_join_all(const_futs).await {
+                                if let Some(url) = policy_cl.output {
+                                    let _ = client
+                                        .output(
+                                            url,
+                                            Err(OutputError::SendConstsError {
+                                                source: Box::new(err),
+                                            }),
+                                        )
+                                        .await;
+                                } else {
+                                    error!(%err, "error when sending consts");
+                                }
+                                // the computation cannot complete: stop the state machine
+                                // (which returns the permit) instead of carrying on
+                                let _ = cmd_sender.send(PolicyCmd::Stop).await;
+                                return;
                             }
                             // returns an error if the state machine is dropped, nothing to do
                             let _ = client_send.send(client);
